@@ -249,7 +249,10 @@ def _digest_main(res, unit, out, diags, raw):
             if fn_r:
                 break
         parts = []
-        for sp in spans:
+        for sp in sorted(spans, key=lambda s: not s.get("is_primary")):
+            lab = sp.get("label") or ""
+            if "at the end of the function body" in lab or "at this exit" in lab or "function body" in lab:
+                continue
             parts.append(_clean(_span_text(data, sp))[:110])
         if fn_r is None:
             # a failing lemma / spec written in the template itself
